@@ -88,6 +88,13 @@ def _build(d):
         errs['Sheet1!H9'] = '=H1+1'
     for i in range(d.pick(4)):
         errs['Sheet1!I%d' % (i + 1)] = d.choice(KIND_FORMULAS)
+    if d.pick(4) == 0:
+        # a DATE WITH A TIME OF DAY handed on by formulas (the evaluated
+        # cells hold date values of their own when the model is persisted)
+        extras['Sheet1!G9'] = ['d', d.choice([44260.524270833, 43831.5,
+                                              36526.000011574, 44000.25])]
+        errs['Sheet1!I8'] = '=G9'
+        errs['Sheet1!I9'] = '=IF(G9>0,G9,0)'
     names = []
     if d.pick(3) == 0:
         model = GM.workbook_safe(model)
